@@ -23,8 +23,13 @@ Operations (names are what replay files contain):
                   restarted when the reader is the writer object); the clock is first put 1 s past every timestamp used
   do, dm, dn      external deletion of the oldest / middle / newest log file on disk
 
+  ra              (reduced alphabets only) read() until nothing more comes
+
 Configurations: mode x file_size {1,4,10} x total_size {3,12,40} x reader kind {self: the writer object reads its own
-log, auto: rdonly autorefresh reader, manual: rdonly reader with autorefresh=False}.
+log, auto: rdonly autorefresh reader, manual: rdonly reader with autorefresh=False}, plus targeted searches with reduced
+alphabets (see plans()): pruning under a reader inside a multi-record file; 'txtw' = txt with 2-byte characters; 'txtl' =
+txt records containing a line-boundary character other than '\\n' (\\r, \\x0c, \\x85, U+2028, ...); a position saved in the
+newest file, that file deleted externally, file list rebuilt, seek(saved).
 
 Oracle (the property statement, nothing more):
   * reader output parses into whole written records (not torn); within one positioning of the reader, delivered record
@@ -392,10 +397,10 @@ class Exec:
         self.m.scanned()
 
     def open_writer(self):
-        return self.rl.RollLog(self.dir, 'txt' if self.mode == 'txtw' else self.mode, file_size=self.cfg['file_size'], total_size=self.cfg['total_size'], utc=True)
+        return self.rl.RollLog(self.dir, 'txt' if self.mode in ('txtw', 'txtl') else self.mode, file_size=self.cfg['file_size'], total_size=self.cfg['total_size'], utc=True)
 
     def open_reader(self):
-        return self.rl.RollLog(self.dir, 'txt' if self.mode == 'txtw' else self.mode, rdonly=True, autorefresh=self.cfg['reader'] == 'auto', utc=True)
+        return self.rl.RollLog(self.dir, 'txt' if self.mode in ('txtw', 'txtl') else self.mode, rdonly=True, autorefresh=self.cfg['reader'] == 'auto', utc=True)
 
     def close(self):
         for o in (self.r, self.w):
@@ -426,10 +431,9 @@ class Exec:
         else:                          # roll-over
             ops += [f'w{n}{rel}{v}' for rel in cfg.get('rels', '>=+<~') for v in vias for n in sizes if rel != '~' or v == 'g']
 
-        ops.append('rd')
-
-        if self.mode != 'bin':         # in 'bin' mode read() is read_block()
-            ops.append('rb')
+        for op in cfg.get('reads', ('rd', 'rb')):
+            if op != 'rb' or self.mode != 'bin':   # in 'bin' mode read() is read_block()
+                ops.append(op)
 
         nav = cfg.get('nav', NAV)
 
@@ -491,6 +495,15 @@ class Exec:
             self.snap = after = H.snapshot(self.dir)
 
             m.on_write(n, H.raw(self.mode, idx, n), ts, before, after, ret)
+
+        elif op == 'ra':                       # macro of reduced alphabets: read() until nothing more comes
+            for _ in range(64):
+                before = m.last
+
+                self._step('rd')
+
+                if m.last == before:
+                    break
 
         elif op in ('rd', 'rb'):
             how = 'read()' if op == 'rd' else 'read_block()'
@@ -656,6 +669,21 @@ def plans(tier):
         for reader in ('self', 'auto'):
             out.append(({'mode': 'txtw', 'file_size': fs, 'total_size': ts, 'reader': reader, 'vias': 'c', 'sizes': (1, 3), 'rels': '>',
                          'nav': ('tl', 'sv'), 'dels': ()}, 6 if quick else 8))
+
+    # text records that contain a line-boundary character other than '\n' (\r, \x0c, \x85, U+2028, ...; one per record
+    # number) must come back whole from read() and read_block()
+    for fs, ts in [(4, 12), (40, 100)]:
+        for reader in ('self', 'auto'):
+            out.append(({'mode': 'txtl', 'file_size': fs, 'total_size': ts, 'reader': reader, 'vias': 'c', 'sizes': (1, 3), 'rels': '>',
+                         'nav': ('tl', 'sv'), 'dels': ()}, 6 if quick else 7))
+
+    # a position saved in the NEWEST file, that file deleted externally while older files survive, the reader's file list rebuilt
+    # (refresh / new reader / restarted writer), seek(saved), read: one file per record, no pruning, one write size, 'ra' = read
+    # until None, searched deep
+    for mode in ('txt', 'bin'):
+        for reader in READERS:
+            out.append(({'mode': mode, 'file_size': 1, 'total_size': 40, 'reader': reader, 'vias': 'c', 'sizes': (1,), 'rels': '>',
+                         'reads': ('ra', 'rd'), 'nav': ('sv', 'tl', 'rf', 'ro'), 'dels': ('dn', 'do')}, 8 if quick else 9))
 
     return out
 
